@@ -416,7 +416,12 @@ pub fn run(tier: Tier) -> i32 {
         let tb = crate::report::tables();
         let root = crate::report::scratch_dir("c15bin");
         let proj = root.join("proj");
-        let tree: Vec<Entry> = (0..n).map(|i| fe(i)).collect();
+        // the files of the alphabet side by side, plus two of them again under ONE name in sibling directories
+        let mut tree: Vec<Entry> = (0..n).map(|i| fe(i)).collect();
+        let named = |i: usize| Entry::File { name: "Token.sol".into(), content: fs[i].1.as_bytes().to_vec() };
+        tree.push(Entry::Dir { name: "core".into(), children: vec![named(0)] });
+        tree.push(Entry::Dir { name: "periphery".into(), children: vec![named(1 % n)] });
+        let twice: Vec<usize> = vec![0, 1 % n];
         fsx::materialise(&proj, &tree);
         let names = |xs: &[&str]| xs.iter().map(|x| x.to_string()).collect::<Vec<String>>();
         let all = (names(dets::OPT_NAMES), names(dets::VULN_NAMES), names(dets::QA_NAMES));
@@ -454,6 +459,13 @@ pub fn run(tier: Tier) -> i32 {
                 if let Some(ls) = r0.get(&(f, detectors[d].name)) {
                     for l in ls {
                         want.push((format!("{}.sol", fname), *l as i64));
+                    }
+                }
+            }
+            for &f in &twice {
+                if let Some(ls) = r0.get(&(f, detectors[d].name)) {
+                    for l in ls {
+                        want.push(("Token.sol".to_string(), *l as i64));
                     }
                 }
             }
